@@ -158,7 +158,8 @@ type Job struct {
 	Cube        int               `json:"cube,omitempty"`            // number of nonlinear polynomials to case-split by sign
 	NoCover     bool              `json:"no_cover,omitempty"`
 	NoKnown     bool              `json:"no_known,omitempty"`        // skip known-finding obligations (their presence is established by witness replay)
-	SymBudget   int               `json:"sym_budget_s,omitempty"`    // wall-clock budget of the symbolic execution of this job (default 180 s)
+	CoverKey    string            `json:"cover_key,omitempty"`       // cover witnesses are replayed natively once per (harness, label, cover key)
+	SymBudget   int               `json:"sym_budget_s,omitempty"`    // wall-clock budget of the symbolic execution of this job (default 900 s; the 4M-term budget is the primary guard)
 	IntBound    int64             `json:"int_bound,omitempty"`       // bound of the integer re-query that makes a model replayable (default 2^20)
 	Nlsat       bool              `json:"nlsat_first,omitempty"`     // conjunctive path queries: z3 4.8.12 default tactic only, others on unknown
 	Abstract    bool              `json:"abstract_floats,omitempty"` // harness runs with uninterpreted float arithmetic: cover witnesses are not replayed natively
@@ -211,6 +212,7 @@ type JobResult struct {
 	SymMs     int64
 	Inputs    int
 	TermNodes int
+	B1        *B1Report
 }
 
 type pendingQuery struct {
@@ -276,6 +278,8 @@ func resetTermStore() {
 	cmpCache = map[string]*Term{}
 	freshCtr = 0
 	resetTerms()
+	b1Reset()
+	feasCache = map[int]string{}
 }
 
 // runInit executes the package initialisers of the repo packages concretely.
@@ -352,7 +356,7 @@ func (r *Runner) symExec(job *Job, jr *JobResult) (paths []pathResult, err error
 			in.forkIn[c] = true
 		}
 		in.decisions = append([]int{}, dec...)
-		budget := 180
+		budget := 900
 		if job.SymBudget > 0 {
 			budget = job.SymBudget
 		}
@@ -404,6 +408,7 @@ func (r *Runner) symExec(job *Job, jr *JobResult) (paths []pathResult, err error
 		}
 	}
 	sort.Strings(jr.Funcs)
+	jr.B1 = b1Report()
 	jr.Paths = len(paths)
 	return paths, nil
 }
@@ -422,6 +427,11 @@ func (r *Runner) runJob(job Job) *JobResult {
 	if timeout == 0 {
 		timeout = 30
 	}
+	type coverQ struct {
+		q   *pendingQuery
+		trn []string
+	}
+	coverGroups := map[string][]coverQ{}
 	for _, p := range paths {
 		var getT []*Term
 		var names []string
@@ -551,8 +561,35 @@ func (r *Runner) runJob(job Job) *JobResult {
 					continue
 				}
 			}
+			if ob.Kind == "cover" && len(paths) > 1 {
+				// path-wise job: a cover label only needs one feasible path; its queries are tried one after the other
+				coverGroups[ob.Label] = append(coverGroups[ob.Label], coverQ{q, trn})
+				continue
+			}
 			r.dispatch(q, nTr, trn)
 		}
+	}
+	for _, grp := range coverGroups {
+		grp := grp
+		sort.SliceStable(grp, func(i, j int) bool { return grp[i].q.res.Size < grp[j].q.res.Size })
+		r.wg.Add(1)
+		go func() {
+			defer r.wg.Done()
+			done := false
+			for _, cq := range grp {
+				if done {
+					cq.q.res.Status = "skipped"
+					cq.q.res.Solver = "skipped"
+					continue
+				}
+				r.sem <- struct{}{}
+				r.solveOne(cq.q, cq.trn)
+				<-r.sem
+				if cq.q.res.Status == "sat" && cq.q.res.Model != nil {
+					done = true
+				}
+			}
+		}()
 	}
 	return jr
 }
